@@ -12,6 +12,7 @@ CONSTANTS
   IfN = "eq0"
   Loop = "for"
   Delete = TRUE
+  NRead = "locked"
   Mode = "contract"
 CONSTRAINT Hwm
 INVARIANTS NoSpurious AtMostOncePerReport NoLost
